@@ -47,9 +47,11 @@ def main(argv):
         ps = M.paths(base)
         for p in ps:
             faults = M.single_faults(base, p)
+            hostile = [f for f in faults if f[0].startswith('hostile-str')]
             if not per_path_all:
-                hostile = [f for f in faults if f[0].startswith('hostile-str')]
                 faults = rng.sample(faults, min(len(faults), 3)) + ([rng.choice(hostile)] if hostile else [])
+            else:     # every structural fault at every node, two of the format-directive strings
+                faults = [f for f in faults if not f[0].startswith('hostile-str')] + rng.sample(hostile, min(len(hostile), 2))
             for desc, d in faults:
                 docs.append((f'single:{desc.split(":")[0]}', d))
         for _ in range(100 if tier == 'quick' else 400):   # 2-3 faults
@@ -148,6 +150,23 @@ def main(argv):
             rep.known_finding('K5', f'505 nested namespaces: process() raised {io[1]} (interpreter recursion limit; identified by namespace nesting depth >= ~490)')
         else:
             rep.violation(f'deeply nested namespaces: undocumented {io[1]}', {"nesting_depth": 505, "document": "root > 505 x namespace N"})
+    # ... the finding is identified by a depth of about 490: a document nested 350 deep (each namespace with a second element, so
+    # that nothing about it is degenerate) parses, in a fresh interpreter with nothing else on its stack
+    mid = {'<class>': 'root', 'elements': [], 'working-directory': '/'}
+    cur = mid['elements']
+    for k in range(350):
+        ns = {'<class>': 'namespace', 'name': dznjson.scope_name(['N']), 'elements': []}
+        cur.append(ns)
+        if k % 50 == 0:
+            cur.append(dznjson.j_decl(['extern', [f'T{k}'], 'int']))
+        cur = ns['elements']
+    cur.append(dznjson.j_decl(['extern', ['T'], 'int']))
+    r = run_impl('json_worker', {'cases': [{'op': 'process', 'doc': mid}]})['results'][0]
+    io = impl_outcome(r)
+    rep.case({'nesting_depth': 350}, shape='deep nesting 350/' + io[0])
+    if io[0] != 'ok':
+        rep.violation(f'350 nested namespaces (well below the depth of known finding K5): process() did not return file contents: {str(io)[:200]}',
+                      {"nesting_depth": 350, "document": "root > 350 x namespace N (+ an extern every 50 levels)"})
     gate = proof_gate('C15')
     return rep.finish(gate, 'well-formed generated documents; every single fault (delete / retype to each JSON type / retag <class> / '
                       'empty or invalid ids / directions) at every node (all per node in thorough, 3 sampled per node in quick); '
